@@ -3,4 +3,10 @@ coq/Raft, correspondence of that model with the implementation, runtime monitor 
 from props import raftcommon as R
 
 PROPS = ('C09',)
-correspondence, search, replay = R.standard_module('C09', PROPS)
+# "a snapshot is the state of exactly position k": where a snapshot is installed, an object state that differs from
+# executing the log prefix (a C01 record) is a C09 record as well
+_SNAP = ('C01',)
+correspondence, search, replay = R.standard_module('C09', PROPS, {
+    'lag_trace': _SNAP, 'scenario:snapshot_sent_long_after_it_was_taken': _SNAP, 'scenario:snapshot_catchup': _SNAP,
+    'scenario:compact_during_install': _SNAP, 'scenario:old_snapshot_again': _SNAP, 'scenario:stale_cursor': _SNAP,
+    'scenario:raising_then_snapshot': _SNAP, 'scenario:version_survives_snapshot_and_dump': _SNAP})
